@@ -49,3 +49,14 @@ Theorem C06_checker_accepts_every_model_run :
     check_C06 (model_case r stored local es) = [].
 Proof. intros r s l es. pose proof (checkers_accept_model r s l es) as H. cbv zeta in H. tauto. Qed.
 Print Assumptions C06_checker_accepts_every_model_run.
+
+(* "only after completion": a delivery to the reader before SME_STATE_COMPLETE has been reported
+   is flagged (code 62), also when the reader has been set up already *)
+Theorem C06_monitor_flags_delivery_before_complete :
+  viol_codes (mon_run (init_ms Client false)
+     [BReport 1 false; BReport 2 false; BReport 3 false; BReport 6 false; BReport 7 false;
+      BReport 8 false; BReport 13 false; BReport 19 false; BReport 22 false; BReport 24 false;
+      BReport 26 false; BReport 27 false; BReport 31 false; BReport 36 false;
+      BShipId; BReport 37 false; BSetup; BDeliver; BReport 38 false]) = [62].
+Proof. vm_compute. reflexivity. Qed.
+Print Assumptions C06_monitor_flags_delivery_before_complete.
